@@ -537,6 +537,45 @@ func c04Check(c *Ctx, files []c04File, fm map[string]string, le, tag string) {
 					checkRange("documentSymbol-after-multi-change-edit", f.Rel, sy.SelectionRange, sy.Name, "symbol "+sy.Name)
 				}
 			}
+			// the document is closed without saving: its text is the file on disk again. Answers asked from another
+			// document that reach into it name positions of that text
+			if len(files) > 1 {
+				orig := ws.Files[f.Rel]
+				srv.DidClose(uri)
+				f.Text = orig
+				fm[f.Rel] = orig
+				c.Count("closes_with_unsaved_edits", 1)
+				o := &files[len(files)-1] // it uses f0Glob, f0Func and f0Tab (the file after it is file 0)
+				ouri := ws.URI(o.Rel)
+				osrc := []byte(o.Text)
+				for _, tk := range RLex(osrc).Toks {
+					if tk.K != TName || (tk.Val != "f0Glob" && tk.Val != "f0Func" && tk.Val != "f0Tab") {
+						continue
+					}
+					p := posAt(osrc, tk.Off)
+					ctx := fmt.Sprintf("query on %s at %v in %s after %s was closed with unsaved edits", tk.Val, p, o.Rel, f.Rel)
+					refs, _, err := srv.References(ouri, p.Line, p.Character)
+					if err != nil {
+						fail()
+						return
+					}
+					for _, l := range refs {
+						checkRange("references-after-close-with-unsaved-edits", ws.Rel(l.URI), l.Range, tk.Val, ctx)
+					}
+					we, _, err := srv.Rename(ouri, p.Line, p.Character, "renamedAfterClose")
+					if err != nil {
+						fail()
+						return
+					}
+					if we != nil {
+						for u, es := range we.Changes {
+							for _, e := range es {
+								checkRange("rename-edit-after-close-with-unsaved-edits", ws.Rel(u), e.Range, tk.Val, ctx)
+							}
+						}
+					}
+				}
+			}
 		}
 	}
 }
